@@ -121,6 +121,11 @@ def confirm_dep(ctx, byid, divs, what, limit=3):
                       dict(kind='calc-plain', programs=progs))
         return
     evs = json.loads(p.stdout)
+    import tracecheck
+    if any(tracecheck.monstrous(e) for el in evs for e in el):
+        ctx.deviation('dep:decimalfp-div9', 'without the guard the library returns a number with thousands of digits '
+                      '- decimalfp mis-divides %s' % example, dict(kind='calc-plain', programs=progs))
+        return
     v = calcrun.validate(evs, tag=ctx.pid + '-plain')
     for e in v.errors:
         ctx.fail('plain confirmation: ' + e)
